@@ -175,7 +175,45 @@ Definition list_of_arr {A : Type} (a : arr A) : list A :=
 Definition val : Type := option Z.
 Definition val_eqb (x y : val) : bool := option_eqb Z.eqb x y.
 
+(** * Comparisons on living grid objects
+    Scripts on a list of grid objects: compatible_with / == / get_transform_to between two of them,
+    data_location changes (rejected for an EsriGrid asked for POINTS) and copies.  Every answer is
+    computed from the current records of the two objects; nothing is remembered between calls. *)
+Inductive gop : Type :=
+| GCompat (i j : nat)           (* obj_i.compatible_with(obj_j) *)
+| GEq (i j : nat)               (* obj_i == obj_j *)
+| GTrans (i j : nat)            (* obj_i.get_transform_to(obj_j): error / None / function *)
+| GSet (i : nat) (pts : bool)   (* obj_i.data_location = ... *)
+| GCopy (i : nat).              (* objs.append(obj_i.copy()) *)
+
+Inductive gres : Type :=
+| GB (b : bool) | GT (t : tres) | GSetR (ok : bool) | GCopied | GBad.
+
+Definition gstep (st : list grid) (o : gop) : list grid * gres :=
+  match o with
+  | GCompat i j => match nth_error st i, nth_error st j with
+                   | Some g, Some h => (st, GB (compatible g h)) | _, _ => (st, GBad) end
+  | GEq i j => match nth_error st i, nth_error st j with
+               | Some g, Some h => (st, GB (grid_eq g h)) | _, _ => (st, GBad) end
+  | GTrans i j => match nth_error st i, nth_error st j with
+                  | Some g, Some h => (st, GT (get_transform_to g h)) | _, _ => (st, GBad) end
+  | GSet i pts => match nth_error st i with
+                  | Some g => if pts && g_esri g then (st, GSetR false)
+                              else (upd i (set_loc g pts) st, GSetR true)
+                  | None => (st, GBad) end
+  | GCopy i => match nth_error st i with
+               | Some g => (st ++ [g], GCopied) | None => (st, GBad) end
+  end.
+
+(** trace: every op with the state in which its answer was given and the answer *)
+Fixpoint gtrace (st : list grid) (ops : list gop) : list (gop * list grid * gres) :=
+  match ops with
+  | [] => []
+  | o :: r => let '(st', x) := gstep st o in (o, st, x) :: gtrace st' r
+  end.
+
 Inductive ares : Type :=
+| ACode (n : nat)               (* scalar answers of grid-object scripts, see [gres_code] *)
 | AOk (sh : list nat) (vals : list val)
 | AErr (cls : nat)            (* 1 ValueError, 2 FinamMetaDataError, 3 FinamDataError *)
 | ANone.                      (* get_transform_to returned None *)
@@ -184,6 +222,7 @@ Definition ares_eqb (a b : ares) : bool :=
   match a, b with
   | AOk s v, AOk t w => shape_eqb s t && list_eqb val_eqb v w
   | AErr m, AErr n => Nat.eqb m n
+  | ACode m, ACode n => Nat.eqb m n
   | ANone, ANone => true
   | _, _ => false
   end.
@@ -217,10 +256,26 @@ Fixpoint run_seq (static : bool) (g h : grid) (cur : option (arr val)) (cache : 
       end
   end.
 
+Definition gres_code (r : gres) : ares :=
+  ACode (match r with
+         | GB false => 0 | GB true => 1
+         | GT TErr => 10 | GT TNone => 11 | GT TFun => 12
+         | GSetR false => 20 | GSetR true => 21
+         | GCopied => 30 | GBad => 31
+         end).
+
+Fixpoint build_all (l : list (gspec * layout)) : option (list grid) :=
+  match l with
+  | [] => Some []
+  | (s, y) :: r => match build s y, build_all r with
+                   | Some g, Some gs => Some (g :: gs) | _, _ => None end
+  end.
+
 Inductive c15_case : Type :=
 | CMethods (sg : gspec) (lg : layout) (sh : gspec) (lh : layout) (shape : list nat) (vals : list val)
 | CLink (sg : gspec) (lg : layout) (sh : gspec) (lh : layout) (shape : list nat) (vals : list val)
-| CLinkSeq (sg : gspec) (lg : layout) (sh : gspec) (lh : layout) (static : bool) (ops : list seq_op).
+| CLinkSeq (sg : gspec) (lg : layout) (sh : gspec) (lh : layout) (static : bool) (ops : list seq_op)
+| CGridSeq (grids : list (gspec * layout)) (ops : list gop).
 
 Definition c15_obs : Type := (list ares * list bool)%type.
 
@@ -252,6 +307,11 @@ Definition c15_model (c : c15_case) : option c15_obs :=
       match build sg lg, build sh lh with
       | Some g, Some h => Some (run_seq static g h None None ops, [])
       | _, _ => None
+      end
+  | CGridSeq grids ops =>
+      match build_all grids with
+      | Some st => Some (map (fun x => gres_code (snd x)) (gtrace st ops), [])
+      | None => None
       end
   end.
 
